@@ -4,6 +4,7 @@ from __future__ import annotations
 
 import ast
 
+from ..alpha import Loc
 from ..cfg import CFG
 from ..const import Folder
 from ..flow import Slicer, flat_guards, guards, parent_map
@@ -267,6 +268,7 @@ def check(model: Model, run: Run) -> None:
     run.rule('C14.R6', 'line reassembly and order: both readers keep the unterminated tail unconditionally after the split loop, cap the buffer, split on newline; commands enter the deque with append and leave with popleft', floor=5)
     _r6_lines(model, run)
     _r6_one_per_turn(model, run)
+    _r6_requeue_at_head(model, run)
 
     # ------------------------------------------------------------------ R8
     run.rule(
@@ -895,3 +897,24 @@ def _r10_parse_gate(model: Model, run: Run) -> None:
                 )
     if n < 5:
         run.cannot('only %d partial() gates found in API.api_*' % n)
+
+
+def _r6_requeue_at_head(model: Model, run: Run) -> None:
+    """replies in command order, also towards a slow helper: what flush_write_queue takes from the head of the write
+    queue of a process (popleft) and can not write - all of it, or its unwritten tail - goes back to the HEAD (appendleft);
+    put at the tail it is overtaken by every reply queued behind it"""
+    fi = model.func('exabgp.reactor.api.processes.Processes.flush_write_queue')
+    run.analysed(fi)
+    L = Loc(model, fi)
+    taken = {nm for nm, ds in L.defs.items() for v, h, _ in ds if isinstance(v, ast.Call) and isinstance(v.func, ast.Attribute) and v.func.attr == 'popleft'}
+    if not taken:
+        run.cannot('flush_write_queue: nothing is taken with popleft()')
+        return
+    queues = {dotted(v.func.value) for nm, ds in L.defs.items() for v, h, _ in ds if isinstance(v, ast.Call) and isinstance(v.func, ast.Attribute) and v.func.attr == 'popleft'}
+    n = 0
+    for c in walk_no_nested(fi.node):
+        if isinstance(c, ast.Call) and isinstance(c.func, ast.Attribute) and c.func.attr in ('append', 'appendleft', 'insert', 'extend', 'extendleft') and dotted(c.func.value) in queues and c.args and any(isinstance(x, ast.Name) and x.id in taken for x in ast.walk(c.args[-1])):
+            n += 1
+            run.check(c.func.attr == 'appendleft', fi.qualname, 'unwritten data goes back with %s' % norm(c)[:60], fi.loc(c), 'what was taken from the head of the queue and could not be written must return to the head: appended at the tail, the reply of an earlier command is written after the replies of later ones whenever the helper is slow to read')
+    if n < 2:
+        run.cannot('flush_write_queue: fewer than 2 re-queueing sites found (%d)' % n)
